@@ -91,7 +91,7 @@ var forms = map[string]string{
 	"slit": `"x"`, "svar": "$x", "scat": "$x $y", "scatlit": `$x "z"`, "sif": `if($x, $y, "no")`,
 	"supper": "std.toupper($x)", "sregsub": `regsub($x, "(.)", "\1\1")`, "sgroup": "re.group.1",
 	"scatint": `"n" $x`, "sfcall": "f2($x)",
-	"sempty": `""`, "stplus": `$x + 5m + "z"`, "stminus": `$x - 90s + "z"`, "stmid": `"at " $x + 90s ";"`, "stvar": `"t" $x`,
+	"sempty": `""`, "scatplus": `"x" + $x`, "stplus": `$x + 5m + "z"`, "stminus": `$x - 90s + "z"`, "stmid": `"at " $x + 90s ";"`, "stvar": `"t" $x`,
 	"tlit": "std.integer2time(1000000000)", "tvar": "$x",
 	"band": "($x && $y)", "bor": "($x || $y)", "bne": "($x != $y)", "bnmatch": `($x !~ "^q")`, "brge": "($x >= $y)",
 	"bfle": "($x <= $y)", "btgt": "($x > $y)", "bteq": `($x + 1h + "" == "x")`,
@@ -122,7 +122,7 @@ type poolName struct {
 
 func buildPool() []poolName {
 	var p []poolName
-	for _, n := range []string{"var.i", "var.j", "var.f", "var.r", "var.s", "var.t", "var.b", "var.tm", "var.p", "var.q",
+	for _, n := range []string{"var.i", "var.j", "var.f", "var.r", "var.s", "var.t", "var.b", "var.tm", "var.n", "var.p", "var.q",
 		"re.group.0", "re.group.1", "re.group.2"} {
 		p = append(p, poolName{n, ""})
 	}
@@ -202,7 +202,7 @@ func (b *builder) block(sub string, parent int, br string, indent string) {
 }
 
 const mainPrelude = `declare local var.i INTEGER; declare local var.j INTEGER; declare local var.f FLOAT; declare local var.r RTIME;
-declare local var.s STRING; declare local var.t STRING; declare local var.b BOOL; declare local var.tm TIME;
+declare local var.s STRING; declare local var.t STRING; declare local var.b BOOL; declare local var.tm TIME; declare local var.n STRING;
 set var.tm = std.integer2time(1000000000);
 set var.i = 3; set var.j = 4; set var.f = 1.5; set var.r = 2s; set var.s = "sv"; set var.t = "tv"; set var.b = true;`
 
@@ -224,6 +224,19 @@ func buildVCL(p *fProg) (string, map[int]lineInfo) {
 	b.emit(`sub f1(STRING var.p, INTEGER var.q) {`)
 	b.emit(`  declare local var.i INTEGER; declare local var.s STRING; set var.i = 8; set var.s = "c1";`)
 	b.block("f1", 0, "", "  ")
+	b.emit(`}`)
+	// g0 / g1: no parameter, every declaration nested in a block, the same names (var.f with another type)
+	b.emit(`sub g1 {`)
+	b.emit(`  if (!req.http.Zz-Never-Set) {`)
+	b.emit(`    declare local var.i INTEGER; declare local var.s STRING; declare local var.f STRING; set var.i = 9; set var.s = "g1"; set var.f = "gf";`)
+	b.block("g1", 0, "", "    ")
+	b.emit(`  }`)
+	b.emit(`}`)
+	b.emit(`sub g0 {`)
+	b.emit(`  if (!req.http.Zz-Never-Set) {`)
+	b.emit(`    declare local var.i INTEGER; declare local var.s STRING; declare local var.f FLOAT; declare local var.n STRING; set var.i = 5; set var.s = "g0"; set var.f = 2.5;`)
+	b.block("g0", 0, "", "    ")
+	b.emit(`  }`)
 	b.emit(`}`)
 	b.emit(`sub vmain {`)
 	for _, l := range strings.Split(mainPrelude, "\n") {
